@@ -1,7 +1,7 @@
 (* Wire-level table of the gadget model (Model/Gadgets.v) instantiated at Fq, for the correspondence check with
    the harness' r1.* ops.  Arguments are integers; hint present = 1 followed by (was_square, y), absent = 0 (honest). *)
 Require Import ZArith List Bool String.
-From D377 Require Import Base.Certs Base.ZpField Base.FieldSec Base.Fields Model.Decaf Model.Gadgets Model.Concrete.
+From D377 Require Import Base.Certs Base.ZpField Base.FieldSec Base.Fields Model.Decaf Model.Gadgets Model.Wrapper Model.Concrete.
 Import ListNotations.
 Open Scope Z_scope.
 Local Existing Instance FqF.
@@ -18,7 +18,41 @@ Definition elligator_den (r_0 : Fq) : Fq :=
   let den := mul (sub (mul ark_D r) (sub ark_D ark_A)) (sub (mul (sub ark_D ark_A) r) ark_D) in
   let num := mul (add r one) (sub ark_A (mul (add one one) ark_D)) in mul num den.
 
+(* ---- histories on one wrapper variable (Model/Wrapper.v), harness ops r1.hist / r1.hist.enc ---- *)
+Definition w_decode_honest := @decode_honest FqF ark_D ark_ZETA fq_neg ark_sr.
+Definition w_encode_honest := @encode_honest FqF ark_A ark_D ark_ZETA fq_neg ark_sr.
+(* allocation of an element with affine coordinates (x, y): kind 0 constant, 2 witness, 3 public input;
+   kind 1: allocation from the field element x (AllocVar<Fq>) *)
+Definition hist_alloc (kind x y : Z) : bool * wstate :=
+  if kind =? 0 then (true, WElt (mkapt (fq x) (fq y)))
+  else if kind =? 1 then (true, WEnc (fq x))
+  else if kind =? 2 then
+    let s := snd (w_encode_honest (fq x) (fq y)) in      (* the encoding is computed out of circuit *)
+    let '(sd, dx, dy) := w_decode_honest s in
+    (sd && @on_curve_g FqF ark_A ark_D (fq x) (fq y) && @is_eq_g FqF dx dy (fq x) (fq y), WElt (mkapt dx dy))
+  else (true, WEnc (snd (w_encode_honest (fq x) (fq y)))).
+(* coordinates of the second operand as the element operations see them *)
+Definition hist_operand (kind x y : Z) : bool * apt :=
+  let w := hist_alloc kind x y in
+  let '(w', p) := @force_elt FqF ark_D ark_ZETA fq_neg ark_sr w in (fst w', p).
+(* q: coordinates of the second VARIABLE as allocated; qc: affine coordinates of the second operand as a constant *)
+Definition hist_op (q qc : apt) (c : Z) : wop :=
+  if c =? 9 then OAdd qc else if c =? 10 then OSub qc else
+  if c =? 0 then OForce else if c =? 1 then OReadEnc else if c =? 2 then OReadVal else if c =? 3 then OAdd q
+  else if c =? 4 then OSub q else if c =? 5 then ODbl else if c =? 6 then ONeg else if c =? 7 then OSel q else OClone.
+Definition hist_out (r : wout) : list Z :=
+  match r with RdEnc s => 0 :: val s :: nil | RdVal p => 1 :: val (aX p) :: val (aY p) :: nil end.
+Definition run_hist (kind x y bkind bx by_ : Z) (codes : list Z) : list Z :=
+  let w := hist_alloc kind x y in
+  let '(bsat, q) := hist_operand bkind bx by_ in
+  let uses_b := existsb (fun c => (c =? 3) || (c =? 4) || (c =? 7)) codes in
+  let '(w', rs) := @wrun FqF ark_A ark_D ark_ZETA fq_neg ark_sr w (map (hist_op q (mkapt (fq bx) (fq by_))) codes) in
+  gb (fst w' && (bsat || negb uses_b)) :: flat_map hist_out rs.
+
 Definition run_gadget (op : string) (a : list Z) : list Z :=
+  if String.eqb op "r1.hist" then
+    match a with kind :: x :: y :: bkind :: bx :: by_ :: codes => run_hist kind x y bkind bx by_ codes | _ => (-1) :: nil end
+  else
   if String.eqb op "r1.isqrt" then
     match a with x :: has :: ws :: y :: nil =>
       let '(w, v) := hint_of has ws y (fq x) in gb (@isqrt_sat FqF ark_ZETA (fq x) w v) :: gb w :: val v :: nil
